@@ -1,9 +1,44 @@
-import ShpanVerif.Util.Parse
-/- Driver handler for C03 (stub: replaced when the property's model lands). -/
+import ShpanVerif.Drive.PipeCommon
+/-
+Driver handler for C03 (sequential part): a fault (error / panic(error) / panic(value)) at a call position
+of the fault-free run must surface: the terminal returns an error whose chain contains the injected error
+(class `user`; for a panic with a non-error value: the "recovered error value" error), and what was
+delivered before is a prefix of the fault-free delivery (no invented elements).
+-/
 namespace ShpanVerif.Drive.C03
+open ShpanVerif.Util ShpanVerif.Model.Pipe ShpanVerif.Drive.PipeCommon ShpanVerif
 
-/-- returns (model output, spec verdict on the observation, reason) -/
-def handle (_c _obs : String) : String × Bool × String :=
-  ("unimplemented", false, "no model yet")
+def isPrefixStr (a b : String) : Bool :=
+  -- canonical delivered texts: "-" or comma separated; compare as token lists
+  let ta := if a == "-" then [] else a.splitOn ","
+  let tb := if b == "-" then [] else b.splitOn ","
+  ta.isPrefixOf tb
+
+def specRun (p : Pipe) (r : Run) (o : ObsRun) : Bool × String :=
+  match r.fault with
+  | none => (true, "")
+  | some (_, .cancel) => (true, "")
+  | some (_, k) =>
+    let wantCls := match k with | .panicVal => "panicval" | _ => "user"
+    if o.ok then (false, s!"fault swallowed: terminal returned success (want err:{wantCls})")
+    else if o.cls != wantCls then (false, s!"wrong error class {o.cls} (want {wantCls})")
+    else
+      -- delivered prefix w.r.t. the list-level fault-free delivery, when that is defined
+      match Spec.eval p with
+      | some l =>
+        let full := match r.take with | none => l | some n => if n ≤ 0 then [] else l.take n.toNat
+        if isPrefixStr o.delivered (fmtVs full) then (true, "")
+        else (false, s!"delivered {o.delivered} is not a prefix of the fault-free {fmtVs full}")
+      | none => (true, "")
+
+def handle (c obs : String) : String × Bool × String :=
+  match parseCase c with
+  | none => ("bad-case", false, "unparsable case")
+  | some (p, rs) =>
+    let model := modelText p rs
+    match parseObs obs, rs with
+    | some [o], [r] => let (ok, why) := specRun p r o; (model, ok, why)
+    | some _, _ => (model, true, "")
+    | none, _ => (model, false, "unparsable observation")
 
 end ShpanVerif.Drive.C03
